@@ -328,6 +328,50 @@ def write_replay(prop, ob, rep):
     return os.path.relpath(path, ROOT), confirmed, ob
 
 
+def cmd_determinism(a):
+    t0 = time.time()
+    from h2vc import determinism
+    prop = 'C28'
+    tier = a.tier or os.environ.get('VERIF_TIER', 'quick')
+    seed = int(os.environ.get('VERIF_SEED', '0'))
+    obs, notes = determinism.run(extract.SRC_DIR)
+    bad = [o for o in obs if o['result'] != 'proved']
+    os.makedirs(os.path.join(ROOT, 'evidence'), exist_ok=True)
+    status = 0
+    lines = []
+    if not obs:
+        status = 3
+        lines.append('CHECKER-ERROR property=C28 zero obligations generated')
+    for o in bad:
+        status = 1
+        d = os.path.join(ROOT, 'replays', prop)
+        os.makedirs(d, exist_ok=True)
+        path = os.path.join(d, hashlib.sha256(o['id'].encode()).hexdigest()[:12] + '.json')
+        json.dump({'property': prop, 'obligation': o['id'], 'clause': o['clause'], 'detail': o['detail'],
+                   'note': 'static determinism obligation failed; no input is needed to exhibit it: the listed '
+                           'construct makes output depend on something other than the call sequence'}, open(path, 'w'), indent=1)
+        lines.append('VIOLATION property=%s replay=%s no-failing-input-found' % (prop, os.path.relpath(path, ROOT)))
+        lines.append('  obligation %s :: %s :: %s' % (o['id'], o['clause'], o['detail']))
+    ev = {'property_id': prop, 'tier': tier, 'seed': seed, 'level': 'other',
+          'coverage': {'explanation': 'Static per-function determinism obligations over every function of src/h2 '
+                       '(import allow-list; no clock/random/os/id/hash calls; no order-sensitive use of set/frozenset values, '
+                       'with set-typed names inferred per module and propagated through intra-module calls). Together with the '
+                       'per-call contracts (the symbolic transition relation of every function under contract is a function of '
+                       'pre-state and arguments) two connections driven by the same calls behave identically. No multi-process run.',
+                       'obligations': len(obs), 'discharged': len(obs) - len(bad),
+                       'checker_cmd': './check determinism --tier %s' % tier,
+                       'samples': obs[:3] + obs[-2:], 'message_text_only': notes,
+                       'trusted_base': ['CPython, hyperframe and hpack are deterministic functions of their inputs',
+                                        'dict iteration is insertion ordered']},
+          'assumptions': ['exception message text that formats a set is excluded (type and code are compared)'],
+          'wall_s': round(time.time() - t0, 2), 'violations': len(bad)}
+    json.dump(ev, open(os.path.join(ROOT, 'evidence', 'C28.json'), 'w'), indent=1)
+    for ln in lines:
+        print(ln)
+    print('property=C28 obligations=%d discharged=%d exit=%d' % (len(obs), len(obs) - len(bad), status))
+    return status
+
+
 def cmd_replay(a):
     out = subprocess.run(['/venv/bin/python', os.path.join(ROOT, 'replay', 'run.py'), a.path])
     return out.returncode
@@ -341,6 +385,8 @@ def main():
     p.add_argument('--tier', default=None)
     p.add_argument('--function', default=None)
     p.add_argument('--serial', action='store_true')
+    dt = sub.add_parser('determinism')
+    dt.add_argument('--tier', default=None)
     r = sub.add_parser('replay')
     r.add_argument('path')
     a = ap.parse_args()
@@ -352,6 +398,8 @@ def main():
         except Exception:
             print('CHECKER-ERROR property=%s\n%s' % (a.property, traceback.format_exc()))
             sys.exit(3)
+    elif a.cmd == 'determinism':
+        sys.exit(cmd_determinism(a))
     elif a.cmd == 'replay':
         sys.exit(cmd_replay(a))
     else:
